@@ -3,6 +3,7 @@
 from __future__ import annotations
 
 import ast
+import re
 
 from ..engine.cfg import CFG, own_fragments, walk_fragment
 from ..engine.match import dotted, norm, func_body_stmts, kwarg
@@ -56,6 +57,30 @@ def _gen_names(f: Func):
                     ids[s.targets[0].id] = s
                 elif d == "self.var_name_gen":
                     vars_[s.targets[0].id] = (s, inner is not v)   # wrapped in var()
+    # lists of generated names ([self.stmt_id_gen(..) for ..]) and the names that walk them
+    # (for a, b in zip(xs, ys) / a comprehension over them)
+    lists = {}
+    for s in func_body_stmts(f.node):
+        if isinstance(s, ast.Assign) and len(s.targets) == 1 and isinstance(s.targets[0], ast.Name) \
+                and isinstance(s.value, ast.ListComp) and isinstance(s.value.elt, ast.Call):
+            d = dotted(s.value.elt.func)
+            if d in ("self.stmt_id_gen", "self.var_name_gen"):
+                lists[s.targets[0].id] = (d, s)
+    if lists:
+        walkers = [n for n in ast.walk(f.node) if isinstance(n, (ast.For, ast.comprehension))]
+        for w in walkers:
+            it, tg = w.iter, w.target
+            srcs, tgts = [it], [tg]
+            if isinstance(it, ast.Call) and dotted(it.func) == "zip" and isinstance(tg, ast.Tuple) \
+                    and len(it.args) == len(tg.elts):
+                srcs, tgts = list(it.args), list(tg.elts)
+            for src, t in zip(srcs, tgts):
+                if isinstance(src, ast.Name) and src.id in lists and isinstance(t, ast.Name):
+                    d, st = lists[src.id]
+                    if d == "self.stmt_id_gen":
+                        ids.setdefault(t.id, st)
+                    else:
+                        vars_.setdefault(t.id, (st, False))
     return ids, vars_
 
 
@@ -355,6 +380,13 @@ def _seed(run, P):
            why="ids and names must be generated against the ids / names in use; the "
                "loops of a statement live in the AST, not in the statement")
     g = P.func(f"{MOD}.get_var_name_generator")
+    for gf in (g, P.func(f"{MOD}.get_stmt_id_generator")):
+        if not any(isinstance(x, ast.Call) and dotted(x.func) == "UniqueNameGenerator"
+                   for x in ast.walk(gf.node)):
+            # the generator is made some other way (seeded on first use by a wrapper class):
+            # what it is seeded with is not read by the clauses below
+            raise AnalysisError(f"{gf.name} does not construct a UniqueNameGenerator itself; "
+                                f"not recognised")
     lp = [x for x in ast.walk(g.node) if isinstance(x, ast.For) and dotted(x.iter) == g.params[0]]
     ok = False
     vset = None
@@ -419,6 +451,14 @@ def _cond_derived(f: Func):
 
 
 def _per_ctor(run, P, f: Func):
+    in_comp = [c for comp in ast.walk(f.node) if isinstance(comp, (ast.ListComp, ast.GeneratorExp))
+               for c in ast.walk(comp.elt) if isinstance(c, ast.Call) and dotted(c.func) in CTORS]
+    if in_comp:
+        # the introduced statements are built by a comprehension over lists of generated
+        # names: the per-constructor clauses follow names through statements, not through
+        # parallel lists
+        raise AnalysisError(f"{f.qualname}: {dotted(in_comp[0].func)}(...) is built inside a "
+                            f"comprehension; not read by the per-constructor clauses")
     ids, vars_ = _gen_names(f)
     conds = _cond_derived(f)
     g = CFG(f.node)
@@ -455,6 +495,20 @@ def _per_ctor(run, P, f: Func):
                     if isinstance(y, ast.Name) and y.id in named:
                         appends[id(named[y.id])] = n
 
+    # a statement that is built, kept in a name, and appended on some paths only (no copy of a
+    # condition that is a plain variable already, say): which paths need it is not decided here
+    from .util import path_conditions as _pc
+    rec_results = {t_.id for s_ in func_body_stmts(f.node) if isinstance(s_, ast.Assign)
+                   and isinstance(s_.value, ast.Call) and dotted(s_.value.func) in rec_names(f)
+                   for t_ in s_.targets if isinstance(t_, ast.Name)}
+    for nm, ctor_ in named.items():
+        n_ = appends.get(id(ctor_))
+        if n_ is None or n_.ast is None:
+            continue
+        conds_ = [t_ for t_, _v in _pc(f.node, n_.ast)]
+        if any(re.search(rf"\b{re.escape(r_)}\b", t_) for t_ in conds_ for r_ in rec_results):
+            raise AnalysisError(f"{f.qualname}: the statement kept in '{nm}' is appended only under "
+                                f"{conds_[0][:50]}; not decided")
     for c in ctors:
         kind = dotted(c.func)
         idv = kwarg(c, "id")
